@@ -26,6 +26,7 @@ type c09Client struct {
 	Kind    string   `json:"transport"`
 	StartMs int      `json:"start_offset_ms"`
 	Ops     []string `json:"ops"` // data | host | ka | unk | close | ooo | fin | rst  (close/ooo/fin/rst end the script)
+	StallS   int     `json:"stops_reading_for_s,omitempty"` // websocket: after set-up the client does not read for that long while its host keeps sending
 	ReuseID  bool    `json:"reuses_connection_id,omitempty"` // websocket: the client presents the Rdg-Connection-Id another of its tunnels (same user, same case) is using
 	SecondIn bool    `json:"second_in_early,omitempty"` // legacy: RDG_IN_DATA is retried with the same connection id before the first one sent its preamble
 }
@@ -53,6 +54,14 @@ func genC09(t *rapid.T) c09Case {
 		}
 		cl.Ops = append(cl.Ops, rapid.SampledFrom([]string{"close", "close-while-host-sends", "ooo", "ooo-while-host-sends", "fin", "rst", "fin-while-host-sends"}).Draw(t, "end"))
 		c.Clients = append(c.Clients, cl)
+	}
+	if rapid.IntRange(0, 11).Draw(t, "stalledClient") == 0 {
+		for i := range c.Clients {
+			if c.Clients[i].Kind == "ws" {
+				c.Clients[i].StallS = 6
+				break
+			}
+		}
 	}
 	return c
 }
@@ -176,6 +185,22 @@ func runC09Client(i int, cl c09Client, o gwOpts, tgt gwc.Target, from int) (err 
 			}
 		}()
 		return done
+	}
+	if ws, ok := conn.(*gwc.WS); ok && cl.StallS > 0 {
+		// the client stops reading, the host writes until the gateway takes no more, then nothing moves for a while
+		ws.Pause(true)
+		chunk := streamBytes(byte(i), 0, 32768)
+		for total := 0; total < 64<<20; {
+			host.C.SetWriteDeadline(time.Now().Add(250 * time.Millisecond))
+			n, err := host.C.Write(chunk)
+			total += n
+			if err != nil {
+				break
+			}
+		}
+		host.C.SetWriteDeadline(time.Time{})
+		time.Sleep(time.Duration(cl.StallS)*time.Second + 500*time.Millisecond)
+		ws.Pause(false)
 	}
 	sent := 0
 	for _, op := range cl.Ops {
